@@ -168,8 +168,31 @@ impl SVal {
     }
 }
 
-/// `None`: not deprecated. `Some(None)`: deprecated without a reason.
-pub type Dep = Option<Option<String>>;
+/// Deprecation of a field, argument, input field or enum value.
+#[derive(Clone, Debug, Serialize, Deserialize, PartialEq, Default)]
+pub enum Dep {
+    #[default]
+    No,
+    Yes {
+        reason: Option<String>,
+    },
+}
+
+impl Dep {
+    pub fn is_some(&self) -> bool {
+        !matches!(self, Dep::No)
+    }
+    /// `None`: not deprecated. `Some(None)`: deprecated without a reason.
+    pub fn get(&self) -> Option<Option<&str>> {
+        match self {
+            Dep::No => None,
+            Dep::Yes { reason } => Some(reason.as_deref()),
+        }
+    }
+    pub fn yes(reason: Option<&str>) -> Dep {
+        Dep::Yes { reason: reason.map(|s| s.to_string()) }
+    }
+}
 
 #[derive(Clone, Debug, Serialize, Deserialize, PartialEq, Default)]
 pub struct SDir {
@@ -317,13 +340,10 @@ pub struct SModel {
 }
 
 impl SModel {
-    pub fn get(&self, name: &str) -> Option<&SType> {
-        self.types.iter().find(|t| t.name == name)
-    }
     /// number of descriptions / deprecations / defaults / applied directives
     pub fn decorations(&self) -> (usize, usize, usize, usize) {
         let (mut de, mut dp, mut df, mut di) = (0, 0, 0, 0);
-        let mut inp = |i: &SInput, de: &mut usize, dp: &mut usize, df: &mut usize, di: &mut usize| {
+        let inp = |i: &SInput, de: &mut usize, dp: &mut usize, df: &mut usize, di: &mut usize| {
             *de += i.description.is_some() as usize;
             *dp += i.dep.is_some() as usize;
             *df += i.default.is_some() as usize;
@@ -393,7 +413,7 @@ pub struct Feat {
     pub fed_extends_with_description: bool,
 }
 
-pub const FEATURE_NAMES: [&str; 11] = [
+pub const FEATURE_NAMES: [&str; 13] = [
     "desc_triple_quote",
     "desc_backslash_single_line",
     "desc_edge_whitespace",
@@ -405,6 +425,8 @@ pub const FEATURE_NAMES: [&str; 11] = [
     "interface_directive_with_implements",
     "fed_tag_backslash",
     "fed_extends_with_description",
+    "directive_definition_argument_description",
+    "directive_definition_argument_deprecation",
 ];
 
 impl Feat {
@@ -497,7 +519,10 @@ fn plain_description(r: &mut Rng) -> String {
     if lines[last].trim_matches([' ', '\t']).is_empty() {
         lines[last] = "end".into();
     }
-    let s = lines.join("\n");
+    let mut s = lines.join("\n");
+    while s.contains("\"\"\"") {
+        s = s.replace("\"\"\"", "\"\" \"");
+    }
     debug_assert!(desc_classes(&s).is_empty(), "{s:?}");
     s
 }
@@ -507,14 +532,20 @@ pub fn gen_description(r: &mut Rng, f: &Feat) -> (String, &'static str) {
     let w = r.below(20);
     let (s, class) = match w {
         0 | 1 if f.desc_triple_quote => (
-            r.pick(&[
-                "\"\"\"",
-                "a \"\"\" b",
-                "say \"\"\"\"",
-                "\\\"\"\"",
-                "line one\nhas \"\"\" inside\nend",
-                "\"\"\"\"\"\"",
-            ])
+            // a backslash in front of the quotes only when single-line backslashes are admitted as well
+            r.pick(if f.desc_backslash_single_line {
+                &["\\\"\"\"", "a \\\"\"\" b", "\"\"\"", "say \"\"\"\""][..]
+            } else {
+                &[
+                    "\"\"\"",
+                    "a \"\"\" b",
+                    "say \"\"\"\"",
+                    "line one\nhas \"\"\" inside\nend",
+                    "line one\nhas \\\"\"\" inside\nend",
+                    "\"\"\"\"\"\"",
+                    "\"\"\"\"\"",
+                ][..]
+            })
             .to_string(),
             "desc_triple_quote",
         ),
@@ -553,17 +584,6 @@ pub fn gen_description(r: &mut Rng, f: &Feat) -> (String, &'static str) {
         _ => (plain_description(r), "plain"),
     };
     (s, class)
-}
-
-pub fn reason_classes(s: &str) -> Vec<&'static str> {
-    let mut v = vec![];
-    if s.contains('"') {
-        v.push("reason_quote");
-    }
-    if s.chars().any(|c| (c as u32) < 0x20 && !matches!(c, '\t' | '\n' | '\r' | '\u{8}' | '\u{c}')) {
-        v.push("reason_control_char");
-    }
-    v
 }
 
 pub fn gen_reason(r: &mut Rng, f: &Feat) -> (String, &'static str) {
@@ -644,7 +664,7 @@ fn gen_dir_value(r: &mut Rng, depth: u32) -> SVal {
         1 => SVal::Int(*r.pick(&[0, 1, -1, 42, i32::MAX as i64, i64::MIN, i64::MAX])),
         2 => SVal::Float(*r.pick(&[0.5, -2.25, 1e21, 1.5e-7, 3.0, -0.0, 1e300])),
         3 => SVal::Bool(r.bool()),
-        4 => SVal::Enum(r.pick(&["RED", "green", "_x1", "nullish", "trueValue"]).to_string()),
+        4 => SVal::Enum(r.pick(&["RED", "green", "_x1", "Nullish", "TRUE_VALUE"]).to_string()),
         _ => SVal::Str(gen_hostile_string(r)),
     }
 }
@@ -695,15 +715,15 @@ fn maybe_desc(r: &mut Rng, f: &Feat, p: (u32, u32), classes: &mut Vec<&'static s
 
 fn maybe_dep(r: &mut Rng, f: &Feat, p: (u32, u32), classes: &mut Vec<&'static str>) -> Dep {
     if !r.chance(p.0, p.1) {
-        return None;
+        return Dep::No;
     }
     if r.chance(1, 4) {
         classes.push("reason_absent");
-        return Some(None);
+        return Dep::Yes { reason: None };
     }
     let (s, c) = gen_reason(r, f);
     classes.push(if c == "plain" { "reason_plain" } else { c });
-    Some(Some(s))
+    Dep::Yes { reason: Some(s) }
 }
 
 /// What the generator produced besides the model: classes of text it used.
@@ -736,7 +756,7 @@ fn decorate_input(
         ty: a.ty.to_string(),
         description: maybe_desc(r, f, (1, 2), &mut info.text_classes),
         default,
-        dep: if optional && !oneof { maybe_dep(r, f, (1, 4), &mut info.text_classes) } else { None },
+        dep: if optional && !oneof { maybe_dep(r, f, (1, 4), &mut info.text_classes) } else { Dep::No },
         directives: gen_dirs(r, (1, 6)),
         fed: gen_fed(r, f),
     }
@@ -786,8 +806,8 @@ fn decorate_field(r: &mut Rng, f: &Feat, ts: &TypeSystem, fd: &vh_model::FieldDe
 
 /// Decorate a G1 skeleton into a full source description.
 pub fn gen_model(r: &mut Rng, f: &Feat) -> (SModel, GenInfo) {
-    let o = vh_model::TsOpts { interface_inheritance: f.dyn_interface_implements, ..Default::default() };
-    let ts = vh_model::gen_type_system(r, &o);
+    let o = vh_model::gen_ts::TsOpts { interface_inheritance: f.dyn_interface_implements, ..Default::default() };
+    let ts = vh_model::gen_ts::gen_type_system(r, &o);
     let mut info = GenInfo::default();
     let mut m = SModel {
         query: ts.query.clone(),
@@ -886,6 +906,19 @@ pub fn gen_model(r: &mut Rng, f: &Feat) -> (SModel, GenInfo) {
                 };
             }
         }
+        // G1 names are generated in ascending order: shuffle every sequence an
+        // option may sort, so that "sorted" and "source order" differ
+        match &mut st.kind {
+            SKind::Object { fields, .. } | SKind::Interface { fields, .. } => {
+                r.shuffle(fields);
+                for fd in fields.iter_mut() {
+                    r.shuffle(&mut fd.args);
+                }
+            }
+            SKind::Enum { values } => r.shuffle(values),
+            SKind::Input { fields, .. } => r.shuffle(fields),
+            _ => {}
+        }
         m.types.push(st);
     }
     (m, info)
@@ -936,8 +969,8 @@ fn dyn_input(a: &SInput) -> d::InputValue {
     if let Some(dv) = &a.default {
         iv = iv.default_value(dv.to_crate());
     }
-    if let Some(reason) = &a.dep {
-        iv = iv.deprecation(reason.as_deref());
+    if let Some(reason) = a.dep.get() {
+        iv = iv.deprecation(reason);
     }
     iv
 }
@@ -945,8 +978,8 @@ fn dyn_input(a: &SInput) -> d::InputValue {
 macro_rules! field_common {
     ($b:ident, $f:expr) => {{
         common!($b, $f);
-        if let Some(reason) = &$f.dep {
-            $b = $b.deprecation(reason.as_deref());
+        if let Some(reason) = $f.dep.get() {
+            $b = $b.deprecation(reason);
         }
         for a in &$f.args {
             $b = $b.argument(dyn_input(a));
@@ -991,8 +1024,8 @@ pub fn build_dynamic(m: &SModel) -> Result<d::Schema, String> {
                 for v in values {
                     let mut it = d::EnumItem::new(v.name.clone());
                     common!(it, v);
-                    if let Some(reason) = &v.dep {
-                        it = it.deprecation(reason.as_deref());
+                    if let Some(reason) = v.dep.get() {
+                        it = it.deprecation(reason);
                     }
                     e = e.item(it);
                 }
